@@ -29,3 +29,10 @@ prop("C18",
      ground=[tables.c18_ground],
      assumptions=["the layout pinned in tables/pinned_layout.json was generated from the audited commit 236b7b1 by `python3-vt -m pyvc.tables pin`"],
      explanation="finite space enumerated completely: every item of every table module is read from the AST of the working tree (all arguments are literals), the real accessor constructor is executed on every distinct shape to derive length/format/bitmask, and each well-formedness / naming / pinned-layout obligation is evaluated")
+
+prop("C03",
+     level="proof",
+     bounded=["Observable registry harness (observable_registry): observer lists of 0..3 members (the list is a concrete Python list in the encoding); the per-item notification contracts are unbounded"],
+     assumptions=["observers do not mutate the observer list or raise while being notified (precondition)",
+                  "temperature items: the decoded-value comparison is proved in C14 (float injectivity); here all non-temperature shapes"],
+     explanation="replace_status_block_segment + status_block_changed proved per accessor shape: notify exactly once with (old,new) iff decoded value differs, observer sees the new block; symbolic block/offset/patch incl. straddling patches")
